@@ -120,3 +120,114 @@ Fixpoint single_pattern_any (c : check) : bool :=
 Lemma no_single_pattern_check_shape_any :
   forallb (fun nc : string * list check => forallb (fun c => negb (single_pattern_any c)) (snd nc)) all_contracts = true.
 Proof. vm_compute. reflexivity. Qed.
+
+(* ---- ALL-SHAPES strictness (P_shape_forms.accepts_iff_forms applied to the golden contracts) --------------------- *)
+From PW.proofs Require Import P_shape_forms.
+
+Lemma forms_b0_all_some :
+  forallb (fun xv : string * option nat => match snd xv with Some _ => true | None => false end) forms_b0 = true.
+Proof. reflexivity. Qed.
+
+Lemma cform_mem_In f l : cform_mem f l = true -> In f l.
+Proof.
+  unfold cform_mem. rewrite existsb_exists. intros [g [Hin H]]. destruct (cform_eq_dec f g); [subst; exact Hin|discriminate].
+Qed.
+
+(* for a covered callable and ALL argument values: accepted iff the shapes are one of its documented forms *)
+Lemma all_shapes_strict name fs args :
+  In (name, fs) documented_forms -> all_shapes_row (name, fs) = true ->
+  accepts_effective all_contracts delegation forms_b0 name args =
+  in_cforms forms_b0 (map (canon forms_ext) fs) args.
+Proof.
+  intros _ H. unfold all_shapes_row in H. cbn [fst snd] in H.
+  apply andb_true_iff in H. destruct H as [H H4]. apply andb_true_iff in H. destruct H as [H H3].
+  apply andb_true_iff in H. destruct H as [H1 H2]. apply negb_true_iff in H1.
+  unfold accepts_effective, run_effective.
+  assert (D : (match assoc delegation name with Some ds => ds | None => [] end) = []).
+  { unfold has_delegates in H1. destruct (assoc delegation name) as [[|d ds]|]; [reflexivity|discriminate|reflexivity]. }
+  rewrite D. cbn [run_delegates].
+  pose proof (accepts_iff_forms forms_b0 args (contract_of all_contracts name) (senv_of forms_b0) forms_b0 H2
+                (senv_rel_init forms_b0 args forms_b0_all_some)) as A.
+  unfold accepts in A.
+  transitivity (in_cforms forms_b0 (forms_of_contract (contract_of all_contracts name) (senv_of forms_b0)) args).
+  - rewrite <- A. destruct (run_contract_from (contract_of all_contracts name) args forms_b0); reflexivity.
+  - apply eq_true_iff_eq. split; apply in_cforms_incl; intros f Hf.
+    + rewrite forallb_forall in H3. apply cform_mem_In. apply H3. exact Hf.
+    + rewrite forallb_forall in H4. apply cform_mem_In. apply H4. exact Hf.
+Qed.
+
+Lemma senv_rel_nil args : senv_rel [] args [] [].
+Proof. intros x. reflexivity. Qed.
+
+Lemma delegates_iff_forms args : forall ds,
+  forallb (fun d => forallb nf_ok (contract_of all_contracts (callee d))) ds = true ->
+  match run_delegates all_contracts ds args with Ok _ => true | Raise _ => false end = deleg_forms_ok ds args.
+Proof.
+  induction ds as [|d r IH]; intros H; [reflexivity|]. cbn [forallb] in H. apply andb_true_iff in H. destruct H as [Hd Hr].
+  cbn [run_delegates deleg_forms_ok forallb].
+  pose proof (accepts_iff_forms [] (wire (wiring d) args) (contract_of all_contracts (callee d)) [] [] Hd (senv_rel_nil _)) as A.
+  unfold accepts in A. unfold run_contract. rewrite <- A.
+  destruct (run_contract_from (contract_of all_contracts (callee d)) (wire (wiring d) args) []); [exact (IH Hr)|reflexivity].
+Qed.
+
+(* for a delegating callable and ALL argument values: accepted iff the shapes satisfy the symbolic forms of its own
+   contract and, for every delegate, the WIRED arguments satisfy the symbolic forms of the callee's contract *)
+Lemma all_shapes_delegating name args : delegating_row name = true ->
+  accepts_effective all_contracts delegation forms_b0 name args =
+  in_cforms forms_b0 (forms_of_contract (contract_of all_contracts name) (senv_of forms_b0)) args &&
+  deleg_forms_ok (delegates_list name) args.
+Proof.
+  intros H. unfold delegating_row in H. apply andb_true_iff in H. destruct H as [H H3].
+  apply andb_true_iff in H. destruct H as [_ H2].
+  unfold accepts_effective, run_effective. fold (delegates_list name).
+  pose proof (accepts_iff_forms forms_b0 args (contract_of all_contracts name) (senv_of forms_b0) forms_b0 H2
+                (senv_rel_init forms_b0 args forms_b0_all_some)) as A.
+  unfold accepts in A. rewrite <- A.
+  destruct (run_contract_from (contract_of all_contracts name) args forms_b0); [|reflexivity].
+  cbn [andb]. apply delegates_iff_forms. exact H3.
+Qed.
+
+(* the callee contracts do not depend on the receiver lengths, and where the callee is itself a registered callable
+   its symbolic forms are its documented forms (all_shapes_row) *)
+Lemma callee_forms_env_independent :
+  forallb (fun name => forallb (fun d =>
+     if list_eq_dec cform_eq_dec (forms_of_contract (contract_of all_contracts (callee d)) [])
+                                 (forms_of_contract (contract_of all_contracts (callee d)) (senv_of forms_b0))
+     then true else false) (delegates_list name)) all_shapes_via_delegates = true.
+Proof. vm_compute. reflexivity. Qed.
+
+(* sanity of the canonical reading: on the finite universe the canonical forms and the unification reading of the
+   documented forms accept the same tuples *)
+Lemma canon_agrees_on_universe :
+  forallb (fun nf : string * list form =>
+     forallb (fun t => Bool.eqb (in_forms forms_b0 (snd nf) (env_of t))
+                                (in_cforms forms_b0 (map (canon forms_ext) (snd nf)) (env_of t)))
+             (tuples (names_of (fst nf)) (universe (List.length (names_of (fst nf)))))) documented_forms = true.
+Proof. vm_compute. reflexivity. Qed.
+
+Lemma all_shapes_covered_count :
+  (List.length all_shapes_covered, List.length all_shapes_via_delegates, List.length documented_forms) = (57, 20, 88)%nat.
+Proof. vm_compute. reflexivity. Qed.
+
+Definition all_shapes_outside : list string :=
+  filter (fun n => negb (mem n all_shapes_covered || mem n all_shapes_via_delegates)) (map fst documented_forms).
+Lemma all_shapes_outside_list : all_shapes_outside =
+  ["polliwog.line._line_functions.coplanar_points_are_on_same_side_of_line";
+   "polliwog.line._line_functions.project_point_to_line";
+   "polliwog.line._line_object.Line.project";
+   "polliwog.plane._plane_intersect.intersect_segment_with_plane";
+   "polliwog.transform._affine_transform.transform_matrix_for_rotation";
+   "polliwog.transform._composite_transform.CompositeTransform.rotate";
+   "polliwog.transform._coordinate_manager.CoordinateManager.rotate";
+   "polliwog.transform._rodrigues.cv2_rodrigues";
+   "polliwog.transform._rodrigues.rodrigues_vector_to_rotation_matrix";
+   "polliwog.transform._viewing.world_to_view";
+   "polliwog.tri.functions.tri_contains_coplanar_point"].
+Proof. vm_compute. reflexivity. Qed.
+
+Lemma all_shapes_row_of_covered name : In name all_shapes_covered ->
+  exists fs, In (name, fs) documented_forms /\ all_shapes_row (name, fs) = true.
+Proof.
+  unfold all_shapes_covered. intros H. apply in_map_iff in H. destruct H as [[n fs] [<- H]].
+  apply filter_In in H. destruct H as [H1 H2]. exists fs. auto.
+Qed.
